@@ -379,6 +379,8 @@ RULES = [
     ("X-VARIANT", "Variant constructors, text renderings and coercion order [shared]", lambda ctx: __import__("extra").variant_constructors(ctx)),
     ("X-LITVALUE", "a literal evaluates to the text written in the query (patterns, size literals, arguments) [shared]", lambda ctx: __import__("extra2").literal_is_its_text(ctx)),
     ("X-BRACKETS", "wherever the parser tests for a closing bracket of one style it provides for the other style as well [shared]", lambda ctx: __import__("extra2").bracket_styles_agree(ctx)),
+    ("X-REEVAL", "an expression evaluated twice for one entry has the same typed value both times (no text-valued memo beside the map handed in) [shared]", lambda ctx: __import__("gcev").reevaluation_is_stable(ctx)),
+    ("X-EXPRWALK", "recursive walks of an expression's value layer visit left, right and the further arguments [shared]", lambda ctx: __import__("extra2").value_walks_reach_arguments(ctx)),
 ]
 
 EXPLANATION = (
